@@ -9,6 +9,7 @@ from vlib import evlog, gens, instr_mp, models
 from vlib import ref_quadtree as rq
 
 PROPERTY = "C03"
+REPLAY_REPEATS = 10
 LEVEL = "exploration"
 JOBS = 12
 CASE_TIMEOUT = 180
